@@ -12,5 +12,6 @@ INVARIANT NothingInvented
 INVARIANT ReceiverNeverFails
 INVARIANT QueueOnlyWhileTriggered
 INVARIANT AllDeliveredWhenQuiet
+INVARIANT NothingAfterClose
 PROPERTY EventuallyDelivered
 CHECK_DEADLOCK FALSE
